@@ -355,7 +355,7 @@ type Challenge struct {
 	// layout choices of the encoder (all legal: receivers locate payload only through offsets,
 	// MaxLen "MUST be ignored on receipt")
 	InfoFirst   bool   // TargetInfo bytes placed before TargetName bytes
-	Gap         int    // unused bytes between the 56-byte fixed part and the payload
+	Gap         int    // unused bytes between the 56-byte fixed part and the payload; -8: no Version slot at all, the payload starts at offset 48 (the pre-Version layout; only for messages without NEGOTIATE_VERSION)
 	MaxLenExtra uint16 // MaxLen = Len + MaxLenExtra
 }
 
@@ -367,7 +367,9 @@ func EncodeChallenge(c *Challenge) []byte {
 	binary.LittleEndian.PutUint32(b[20:], c.Flags)
 	copy(b[24:32], c.ServerChallenge[:])
 	copy(b[32:40], c.Reserved[:])
-	copy(b[48:56], c.Version[:])
+	if len(b) >= 56 {
+		copy(b[48:56], c.Version[:])
+	}
 	for i := 56; i < len(b); i++ {
 		b[i] = 0xEE
 	}
